@@ -20,7 +20,7 @@ PLANS = {
     "C08": dict(families=dict(quick=[("client", 32, 400), ("barrierrace", 8, 0)], thorough=[("client", 240, 600), ("chaos", 80, 600), ("barrierrace", 48, 0)])),
     "C09": dict(families=dict(quick=[("verify", 32, 400), ("member", 8, 400), ("verifywide", 12, 0)], thorough=[("verify", 240, 600), ("member", 80, 500), ("verifywide", 96, 0)])),
     "C10": dict(models=dict(quick=[], thorough=[("MC_HRaft.tla", "MC_Crash.cfg", 900)]), families=dict(quick=[("restart", 24, 400), ("snapcfgrace", 12, 0), ("snapmember", 8, 400), ("ctcrash", 12, 0)], thorough=[("restart", 240, 600), ("snap", 80, 600), ("snapcfgrace", 96, 0), ("snapmember", 80, 500), ("ctcrash", 64, 0)]), suites=["l2:restart"]),
-    "C11": dict(models=dict(quick=[("MC_HRaft.tla", "MC_Snapshot_q.cfg", 300)], thorough=[("MC_HRaft.tla", "MC_Snapshot_q.cfg", 900)]), families=dict(quick=[("snap", 24, 400), ("restart", 16, 400), ("snapcfgrace", 12, 0), ("phases", 10, 0)], thorough=[("snap", 200, 700), ("restart", 160, 600), ("restore", 60, 500), ("snapcfgrace", 96, 0), ("snapmember", 80, 500), ("phases", 64, 0), ("apibound", 48, 0)]), suites=["l1:compaction"]),
+    "C11": dict(models=dict(quick=[("MC_HRaft.tla", "MC_Snapshot_q.cfg", 300)], thorough=[("MC_HRaft.tla", "MC_Snapshot_q.cfg", 900)]), families=dict(quick=[("snap", 24, 400), ("restart", 16, 400), ("snapcfgrace", 12, 0), ("phases", 10, 0)], thorough=[("snap", 200, 700), ("restart", 160, 600), ("restore", 60, 500), ("snapcfgrace", 96, 0), ("snapmember", 80, 500), ("phases", 64, 0), ("apibound", 48, 0)]), suites=["l1:compaction", "comp:filesnap"]),
     "C12": dict(families=dict(quick=[("chaos", 16, 400), ("snap", 16, 400), ("restart", 12, 400), ("elect", 16, 400), ("prevoteterm", 8, 0), ("phases", 10, 0)], thorough=[("chaos", 120, 700), ("snap", 160, 700), ("restart", 120, 600), ("member", 40, 500), ("elect", 120, 500), ("restore", 60, 500), ("prevoteterm", 48, 0), ("phases", 64, 0)])),
     "C13": dict(models=dict(quick=[("LeaseTimed.tla", "LeaseTimed_q.cfg", 120)], thorough=[("LeaseTimed.tla", "LeaseTimed.cfg", 900), ("LeaseTimed.tla", "LeaseTimed_norearm.cfg", 300, "StepsDownInTime")]), families=dict(quick=[("lease", 24, 500), ("leasequiet", 8, 400), ("leaseiso", 12, 0), ("leaseadd", 12, 0)], thorough=[("lease", 200, 800), ("leasequiet", 48, 1200), ("leaseiso", 96, 0), ("leaseadd", 96, 0)])),
     "C14": dict(models=dict(quick=[("MC_HRaft.tla", "MC_Election_q.cfg", 300)], thorough=[("MC_HRaft.tla", "MC_Election.cfg", 900)]), families=dict(quick=[("prevote", 30, 0), ("elect", 12, 400), ("prevoteterm", 6, 0), ("xferisolated", 8, 0)], thorough=[("prevote", 240, 0), ("elect", 120, 600), ("chaos", 60, 600), ("prevoteterm", 32, 0), ("xferisolated", 48, 0), ("fastpathrace", 24, 0)])),
@@ -201,7 +201,7 @@ L1 = {
                      thorough=dict(cfg="LogCacheBig.cfg", env={"VERIF_CAP": "3"},
                                    bounds="indexes 1..5, ring capacity 3, each index written at most twice, batches of 1-3: whole reachable state graph")),
     "filesnap": dict(module="FileSnap.tla", cfg="FileSnap.cfg", test="TestFileSnap", prefix="CASE", pkg="comp",
-                     bounds="histories of 1-2 snapshots (quick) / 1-3 (thorough) over (term,index) in {(1,5),(2,3),(2,7)}, each closed or cancelled, retain in {1,2}; the real store is stopped at EVERY hook point between file-system steps (as-is tree, rename-lost variant, half-reaped variants), recovered with a fresh store",
+                     bounds="histories of 1-2 snapshots (quick) / 1-3 (thorough) over (term,index) in {(1,5),(2,3),(2,7),(2,10)}, each closed or cancelled, retain in {1,2}; the real store is stopped at EVERY hook point between file-system steps (as-is tree, rename-lost variant, half-reaped variants), recovered with a fresh store",
                      thorough=dict(cfg="FileSnapBig.cfg")),
     "nettrans": dict(module="NetTrans.tla", cfg="NetTrans.cfg", test="TestNetTrans", prefix="CASE", pkg="comp",
                      bounds="every sequence of 1-2 calls (quick) / 1-3 (thorough, every 8th) over {AppendEntries, RequestVote, RequestPreVote, InstallSnapshot with body, TimeoutNow, pipeline of 3 AppendEntries} x {no fault, connection cut inside the request, cut inside the response, slow handler, handler error} x pool size {1,2} x {sequential, concurrent}; field values generated per seed",
